@@ -78,9 +78,15 @@ def run(case, kind, dense, commons, shape):
     with warnings.catch_warnings():
         warnings.simplefilter("ignore")
         if kind == "ccube":
-            cube = ccube([Q.build_index(a, c) for a, c in zip(dense, commons)], shape)
+            dims_ = [Q.build_index(a, c) for a, c in zip(dense, commons)]
         else:
-            cube = xcube(dense, shape)
+            dims_ = list(dense)
+        al = case.get("alias")
+        import numpy as _n
+        if al and len(dims_) > al[1] and commons[al[0]] == commons[al[1]] and dense[al[0]].shape == dense[al[1]].shape \
+                and _n.array_equal(dense[al[0]], dense[al[1]]):
+            dims_[al[1]] = dims_[al[0]]  # one object serving as two dimensions
+        cube = (ccube if kind == "ccube" else xcube)(dims_, shape)
         res = Q.call_agg(cube, case["agg"], farg, warg, case["ignore"], case["rma"], prob=case["prob"])
     return Q.normalise(res, case["rma"], "%s.%s" % (kind, case["agg"]))
 
